@@ -121,7 +121,7 @@ def main(argv):
         # ---- correspondence
         validated = L.correspondence(res, h, clir, rng, 250 if quick else 3000, PID, "c09")
         # ---- the property on the implementation
-        progs = L.corpus_programs(PID) + L.gen_programs(rng, 500 if quick else 12000)
+        progs = L.corpus_programs(PID) + L.gen_programs(rng, 500 if quick else 12000, h=h)
         cases = L.run_search_inputs(h, clir, progs, cli_every=1 if quick else 2)
         # the generator's bookkeeping against the independent scanners (harness + python)
         scans = L.impl_scan(h, [sc.src for sc in cases])
